@@ -329,3 +329,13 @@ Theorem C01_prologue_reads :
     x = root0 \/ x = mapped \/ (exists ok, pt = PTImage x ok).
 Proof. exact prologue_fetches_nodes. Qed.
 Print Assumptions C01_prologue_reads.
+
+(* ExtendedCopyGraph's walk from several roots (c_root :: c_xroots share tracker, proxy, limiter):
+   success => the graph of EVERY root is in the destination *)
+Theorem C01_closure_all_roots :
+  forall (g : graph) (c : cfg) (d0 : list node) (tr : list event) (st : state),
+    closed_nodes g d0 -> mt_consistent g ->
+    accepts g c d0 tr = Some st -> returned st = Some true ->
+    forall r n, In r (c_root c :: c_xroots c) -> reach g r n -> has g (dst st) n = true.
+Proof. exact closure_all_roots. Qed.
+Print Assumptions C01_closure_all_roots.
